@@ -20,6 +20,8 @@ def _selfloop(E, st, g, x):
 
 
 def _untr(E, st, g, x):
+    if getattr(x, 'sort', None) != 'GNode':          # element of the empty default (): the clause is vacuous there
+        return VObj('OutNode', z3.Const('undefined_out', Out))
     return VObj('OutNode', untr(st.heap[g.rid].fields['_untransform_node'].z, x.z))
 
 
@@ -52,8 +54,29 @@ FILTER = {
 }
 
 
+NEIGHBORS = {          # the public accessor: works on UNtransformed nodes (transforms its argument, untransforms the result)
+    'property': ['C20'],
+    'generator': True,
+    'params': {'node': 'OutNode'},
+    'self_fields': {'_neighbors': 'Dict[GNode,NSet]', '_nodes': 'Set[GNode]', '_untransform_node': 'Untr', '_transform_node': 'Tr'},
+    'returns': 'List[OutNode]',
+    'requires': [], 'modifies': [],
+    'ensures': ["implies(tr(self, node) not in self._neighbors, len(result) == 0)",
+                "implies(tr(self, node) in self._neighbors, len(result) == nset_len(self._neighbors[tr(self, node)]) and"
+                " forall(i, Int, implies(0 <= i and i < len(result),"
+                " result[i] == untr(self, nset_item(self._neighbors[tr(self, node)], i)))))"],
+    'raises': {},
+    'loops': {'#loop1': ["len(G.__yield__) == _i",
+                         "forall(i, Int, implies(0 <= i and i < _i, G.__yield__[i] == untr(self, _it[i])))"]},
+}
+
+
 def register(E):
-    E.records['digraph.DiGraph'] = {'_neighbors': 'Dict[GNode,NSet]', '_nodes': 'Set[GNode]', '_untransform_node': 'Untr'}
+    trf = z3.Function('transform', usort('Tr'), Out, Node)
+    E.callable_sorts['Tr'] = lambda eng, st, f, args: VObj('GNode', trf(f.z, args[0].z))
+    E.specfuncs['tr'] = lambda eng, st, g, x: VObj('GNode', trf(st.heap[g.rid].fields['_transform_node'].z, x.z))
+    E.records['digraph.DiGraph'] = {'_neighbors': 'Dict[GNode,NSet]', '_nodes': 'Set[GNode]', '_untransform_node': 'Untr',
+                                    '_transform_node': 'Tr'}
     E.member_sorts['NSet'] = lambda eng, st, cont, x: nmem(cont.z, x.z)
     E.callable_sorts['Untr'] = lambda eng, st, f, args: VObj('OutNode', untr(f.z, args[0].z))
     E.specfuncs.update({'selfloop': _selfloop, 'untr': _untr})
@@ -65,6 +88,7 @@ def register(E):
     ]
     E.add_contract('digraph.DiGraph.sccs', FILTER)
     register_partition(E)
+    E.add_contract('digraph.DiGraph.neighbors', NEIGHBORS)
 
 
 # ======================================================================================================================
